@@ -11,6 +11,7 @@ mod c19;
 mod c02;
 mod c04;
 mod c05;
+mod c06;
 mod c07;
 mod c08;
 mod c09;
@@ -73,6 +74,7 @@ pub fn run(cmd: &str, thorough: bool) -> Option<Report> {
         "c02-reader" => c02::run(thorough),
         "c04-hostile" => c04::run(thorough),
         "c05-encrypt" => c05::run(thorough),
+        "c06-interop" => c06::run(thorough),
         "c07-histories" => c07::run(thorough),
         "c08-orders" => c08::run(thorough),
         "c09-filters" => c09::run(thorough),
@@ -99,6 +101,7 @@ fn replay(v: &serde_json::Value) -> i32 {
         "c02-reader" => c02::replay(r),
         "c04-hostile" => c04::replay(r),
         "c05-encrypt" => c05::replay(r),
+        "c06-interop" => c06::replay(r),
         "c07-histories" => c07::replay(r),
         "c08-orders" => c08::replay(r),
         "c09-filters" => c09::replay(r),
